@@ -354,6 +354,7 @@ def run(ctx):
     ctx.floor("m5_alignment_checks", ctx.pick(300, 5000))
     ctx.floor("judged:delimited.write", ctx.pick(50, 1000))
     ctx.floor("judged:delimited.concat", ctx.pick(50, 1000))
+    ctx.floor("blind_steps", ctx.pick(50, 1000))       # the un-decoded / lazy-view variants must actually have run
 
 
 def replay(ctx, w):
